@@ -54,7 +54,10 @@ def check(ctx):
 
     def faithful(o):
         from .clone_common import clone_provenance
-        clone_provenance(ctx, o, ('fields',))
+        from .c02 import _Only
+        # estimate / spent are values the scheduler computes itself (they are not among the things C06 promises to carry over:
+        # ids, hierarchy, order, links, custom attributes); a copy that loses them is C04's / C10's finding
+        clone_provenance(ctx, _Only(o, drop=("__estimate", "__spent")), ('fields',))
     ctx.guarded(o, faithful)
 
     o = ctx.ob('scheduler_frame', 'R9a',
@@ -257,6 +260,13 @@ def frame(ctx, o, eff: Effects):
                 if fld == S['resources'] and root == 'self':
                     o.site(f, f.node, "resource table")
                     continue
+                if root == 'self' and fld in _per_call_state(ctx, S):
+                    o.site(f, f.node, f"self.{unmangle(fld)}: re-initialised by every calc before the pass runs (per-call state)")
+                    continue
+                if root.startswith('param:') and root[6:] in f.params and \
+                        base(ctx.typer.expr_type(ast.Name(id=root[6:], ctx=ast.Load()), f)) == '_ResourceUsage':
+                    o.site(f, f.node, f"ledger state {unmangle(fld)} (the ledger object is allocated per calc)")
+                    continue
                 if fld == '<container>' and root.startswith('param:') and root[6:] in f.params[4:5] + [f.params[-1]]:
                     o.site(f, f.node, "memo list")
                     continue
@@ -388,6 +398,9 @@ def fresh(ctx, o, eff: Effects):
             for w in eff.direct_writes(f):
                 if w.root == 'self':
                     if w.field == S['resources'] and w.kind == 'mutate:setdefault':
+                        continue
+                    if w.field in _per_call_state(ctx, S):
+                        o.site(f, w.node, f"self.{unmangle(w.field)}: per-call state, re-initialised by calc before the pass runs")
                         continue
                     o.refute(f, w.node, w.node, f"scheduler state `{unmangle(w.field)}` is changed during calc ({w.kind}): repeated calls are not independent")
 
